@@ -190,6 +190,10 @@ func analyseStmt(s fl.Stmt) flow {
 
 var kinds = []string{"func", "method", "funclit", "nested-funclit"}
 
+// placements of a function literal inside other statements (the analysis has to find the
+// literal wherever it is written); explored with the single-statement bodies
+var placedKinds = []string{"funclit-in-if", "funclit-in-elseif", "funclit-in-else", "funclit-in-while", "funclit-in-for", "funclit-in-match-arm", "funclit-in-catch-handler", "funclit-as-argument", "funclit-returned"}
+
 func build(g gen, kind, sfx string) (*fl.Program, []fl.Stmt) {
 	n := 0
 	body := append([]fl.Stmt{&fl.Let{Name: "y", T: fl.I32, Init: c(0)}}, g.mk(&n)...)
@@ -212,6 +216,44 @@ func build(g gen, kind, sfx string) (*fl.Program, []fl.Stmt) {
 		}
 	case "funclit":
 		mainBody = append(mainBody, &fl.Let{Name: "f", Init: &fl.FuncLit{Params: []fl.Param{{"x", fl.I32}}, Ret: fl.I32, Body: body}})
+		for _, a := range args {
+			mainBody = append(mainBody, fl.P(&fl.Call{Fn: "f", Args: []fl.Expr{c(a)}}))
+		}
+	case "funclit-in-if", "funclit-in-elseif", "funclit-in-else", "funclit-in-while", "funclit-in-for", "funclit-in-match-arm", "funclit-in-catch-handler":
+		inner := []fl.Stmt{&fl.Let{Name: "f", Init: &fl.FuncLit{Params: []fl.Param{{"x", fl.I32}}, Ret: fl.I32, Body: body}}}
+		for _, a := range args {
+			inner = append(inner, fl.P(&fl.Call{Fn: "f", Args: []fl.Expr{c(a)}}))
+		}
+		one := &fl.Let{Name: "one", T: fl.I32, Init: c(1)}
+		mainBody = append(mainBody, one)
+		switch kind {
+		case "funclit-in-if":
+			mainBody = append(mainBody, &fl.If{Cond: fl.B("==", fl.V("one"), c(1)), Then: inner})
+		case "funclit-in-elseif":
+			mainBody = append(mainBody, &fl.If{Cond: fl.B("==", fl.V("one"), c(0)), Then: []fl.Stmt{fl.P(fl.S("no"))},
+				Else: []fl.Stmt{&fl.If{Cond: fl.B("==", fl.V("one"), c(1)), Then: inner, Else: []fl.Stmt{fl.P(fl.S("no"))}}}})
+		case "funclit-in-else":
+			mainBody = append(mainBody, &fl.If{Cond: fl.B("==", fl.V("one"), c(0)), Then: []fl.Stmt{fl.P(fl.S("no"))}, Else: inner})
+		case "funclit-in-while":
+			mainBody = append(mainBody, &fl.Let{Name: "w", T: fl.I32, Init: c(0)}, &fl.While{Cond: fl.B("<", fl.V("w"), c(1)), Body: append(inner, &fl.IncDec{LHS: fl.V("w"), Inc: true})})
+		case "funclit-in-for":
+			mainBody = append(mainBody, &fl.Let{Name: "z", T: fl.I32, Init: c(0)}, &fl.ForRange{Var: "it", Lo: fl.V("z"), Hi: fl.V("one"), Body: inner})
+		case "funclit-in-match-arm":
+			mainBody = append(mainBody, &fl.Match{Subj: fl.V("one"), Arms: []fl.Arm{{Pat: c(1), Body: inner}, {Body: []fl.Stmt{fl.P(fl.S("no"))}}}})
+		case "funclit-in-catch-handler":
+			p.Funcs = append(p.Funcs, &fl.Func{Name: "fails" + sfx, Ret: fl.TResult{Err: fl.Str, Ok: fl.I32}, Body: []fl.Stmt{&fl.ReturnErr{X: fl.S("e")}}})
+			mainBody = append(mainBody, &fl.Let{Name: "cv", Init: &fl.Catch{X: fl.C("fails" + sfx), ErrName: "e", Handler: inner, Fallback: c(0)}}, fl.P(fl.V("cv")))
+		}
+	case "funclit-as-argument":
+		ft := fl.TFunc{Params: []fl.Type{fl.I32}, Ret: fl.I32}
+		p.Funcs = append(p.Funcs, &fl.Func{Name: "apply" + sfx, Params: []fl.Param{{"g", ft}, {"v", fl.I32}}, Ret: fl.I32, Body: []fl.Stmt{&fl.Return{X: &fl.Call{Fn: "g", Args: []fl.Expr{fl.V("v")}}}}})
+		for _, a := range args {
+			mainBody = append(mainBody, fl.P(fl.C("apply"+sfx, &fl.FuncLit{Params: []fl.Param{{"x", fl.I32}}, Ret: fl.I32, Body: body}, c(a))))
+		}
+	case "funclit-returned":
+		ft := fl.TFunc{Params: []fl.Type{fl.I32}, Ret: fl.I32}
+		p.Funcs = append(p.Funcs, &fl.Func{Name: "mk" + sfx, Ret: ft, Body: []fl.Stmt{&fl.Return{X: &fl.FuncLit{Params: []fl.Param{{"x", fl.I32}}, Ret: fl.I32, Body: body}}}})
+		mainBody = append(mainBody, &fl.Let{Name: "f", Init: fl.C("mk" + sfx)})
 		for _, a := range args {
 			mainBody = append(mainBody, fl.P(&fl.Call{Fn: "f", Args: []fl.Expr{c(a)}}))
 		}
@@ -248,7 +290,11 @@ func Run(ctx *vl.Ctx) {
 			continue
 		}
 		seen[g.desc] = true
-		for _, kind := range kinds {
+		ks := kinds
+		if !strings.Contains(g.desc, ";") {
+			ks = append(append([]string{}, kinds...), placedKinds...) // single-statement bodies also in every placement
+		}
+		for _, kind := range ks {
 			id := fmt.Sprintf("C05/%s/%s", kind, g.desc)
 			if f := os.Getenv("VERIF_FILTER"); f != "" && !strings.Contains(id, f) {
 				continue
